@@ -309,6 +309,21 @@ pub fn parse_currency_non_commodity(input: &str) -> Result<String, ParseError> {
 
 /// Parse amount with optional decimal places
 pub fn parse_amount(input: &str) -> Result<f64, ParseError> {
+    // A SWIFT amount is unsigned digits with at most one decimal separator and at least one
+    // integer digit; f64::from_str alone would also take signs, exponents, "inf" and "NaN".
+    let (integer, fraction) = match input.find([',', '.']) {
+        Some(pos) => (&input[..pos], &input[pos + 1..]),
+        None => (input, ""),
+    };
+    if integer.is_empty()
+        || !integer.bytes().all(|b| b.is_ascii_digit())
+        || !fraction.bytes().all(|b| b.is_ascii_digit())
+    {
+        return Err(ParseError::InvalidFormat {
+            message: format!("Invalid amount format: {}", input),
+        });
+    }
+
     // Remove any commas (European decimal separator handling)
     let normalized = input.replace(',', ".");
 
